@@ -765,6 +765,17 @@ class Idioms(ast.NodeTransformer):
                 for s in node.body):
             node.test = _negate(node.test)
             node.body, node.orelse = node.orelse, []
+        # if not c: A else: B  /  if x not in y: A else: B  ->  positive
+        # test first (elif chains keep their order)
+        if node.orelse and not (len(node.orelse) == 1 and isinstance(
+                node.orelse[0], ast.If)) and (
+                (isinstance(node.test, ast.UnaryOp)
+                 and isinstance(node.test.op, ast.Not))
+                or (isinstance(node.test, ast.Compare)
+                    and len(node.test.ops) == 1
+                    and isinstance(node.test.ops[0], ast.NotIn))):
+            node.test = _negate(node.test)
+            node.body, node.orelse = node.orelse, node.body
         # if c: x = True else: x = False  ->  x = c
         if len(node.body) == 1 and len(node.orelse) == 1 and all(
                 isinstance(s, ast.Assign) and len(s.targets) == 1
@@ -978,10 +989,13 @@ def _local_lambdas(fn):
                 dicts[st.targets[0].id] = (st, [(k.arg, k.value)
                                                 for k in v.keywords])
             elif isinstance(v, ast.Dict) and v.keys and all(
-                    isinstance(k, ast.Constant) and isinstance(k.value, str)
-                    and k.value.isidentifier() for k in v.keys):
-                dicts[st.targets[0].id] = (st, [(k.value, val) for k, val in
-                                                zip(v.keys, v.values)])
+                    k is None or (isinstance(k, ast.Constant) and isinstance(
+                        k.value, str) and k.value.isidentifier())
+                    for k in v.keys):
+                # ({..., **other} keeps its `**other` entry)
+                dicts[st.targets[0].id] = (st, [
+                    (k.value if k is not None else None, val)
+                    for k, val in zip(v.keys, v.values)])
     for name, (st, items) in dicts.items():
         uses = [n for n in ast.walk(fn) if isinstance(n, ast.Name)
                 and n.id == name]
@@ -1922,6 +1936,7 @@ def normalize_module(tree: ast.Module, extern=None) -> ast.Module:
             n2.counted_while(n)
             n2.single_use_dicts(n)
             n2.flag_finally(n)
+            n2.local_sorts(n)
     for _round in range(2):
         before = ast.dump(tree) if _round else None
         tree = Inliner(tree).run()
